@@ -98,6 +98,20 @@ impl<'h> HitObjectPatternGenerator<'h> {
         }
     }
 
+    #[cfg(rosu_pp_verif)]
+    pub(crate) fn verif_inputs(&self) -> String {
+        format!(
+            r#""k":{},"ct":"{}","finish":{},"clap":{},"cd":{},"x0":{},"prev":{}"#,
+            self.inner.total_columns,
+            self.convert_type,
+            self.sample.has_flag(HitSoundType::FINISH),
+            self.sample.has_flag(HitSoundType::CLAP),
+            self.inner.conversion_difficulty(),
+            self.inner.get_column(Some(true)),
+            self.prev_pattern.verif_notes(self.inner.total_columns),
+        )
+    }
+
     pub fn generate(&mut self) -> Pattern {
         let pattern = self.generate_core();
 
